@@ -428,6 +428,23 @@ class StepOpen:
         return Handle(self.fs, p, mode)
 
 
+class Unpicklable:
+    """a result that cannot be pickled: pickle.dump raises after the output file has been opened"""
+
+    def __reduce__(self):
+        raise TypeError("cannot pickle 'Unpicklable' object")
+
+
+def _has_unpicklable(o):
+    if isinstance(o, Unpicklable):
+        return True
+    if isinstance(o, (list, tuple)):
+        return any(_has_unpicklable(x) for x in o)
+    if isinstance(o, dict):
+        return any(_has_unpicklable(x) for x in o.values())
+    return False
+
+
 class StepPickle:
     """pickle module stand-in: dump = K chunk steps, load of an incomplete file raises"""
 
@@ -437,6 +454,8 @@ class StepPickle:
         self.fs = fs
 
     def dump(self, obj, h, *a, **k):
+        if _has_unpicklable(obj):
+            raise TypeError("cannot pickle 'Unpicklable' object")
         obj = fakefs.snap(obj)
         if self.fs.buffered:
             h.pending = (obj,)
